@@ -817,13 +817,18 @@ func statusVsDocuments(s Session, r *sessRun, i int, pre *simos.FS) *Violation {
 		bt = r.Stdin[i]
 	}
 	a, err := parseDoc(string(at), f.yaml)
+	if err == nil {
+		_, err = parseDoc(string(bt), f.yaml)
+	}
 	if err != nil {
+		if !f.yaml {
+			// the harness's own strict JSON parser rejects an input that this
+			// process diffed as if it were a document: "2 on any error"
+			return viol14("invalid-json-accepted", p, e, "exit status %d although an input is not a JSON document (%v): a=%s b=%s; argv=%q", res.Code, err, show(at), show(bt), p.Argv)
+		}
 		return nil
 	}
-	b, err := parseDoc(string(bt), f.yaml)
-	if err != nil {
-		return nil
-	}
+	b, _ := parseDoc(string(bt), f.yaml)
 	m := cmpMode{Arrays: "list", Eps: f.precision}
 	var keys []string
 	switch {
